@@ -56,6 +56,9 @@ CONSTANTS
   Filts,         \* subset of BOOLEAN: subscriptions with a tags filter that excludes tag "drop"
   Meds,          \* subset of BOOLEAN: channel medium with KeepLatestPublication
   AllowClear,    \* history removal / expiry modelled
+  PayKinds,      \* subset of {"sim", "unrel"}: payload class of a publication. "sim" payloads share long substrings with
+                 \* each other (fossil gives a patch smaller than the payload); an "unrel" payload is short and unrelated:
+                 \* neither a patch TO it nor a patch FROM it is smaller than the target, the code falls back to the full data
   DeltaOpts,     \* subset of BOOLEAN: the per-publication delta option (PublishOptions.UseDelta) offered to Publish
   AsCoded, Withhold
 
@@ -63,6 +66,7 @@ VARIABLES
   top, win,      \* broker stream: top offset, retained window <<[off, id, tag]>>
   wire,          \* publications handed over by the broker, not yet delivered: [id, off, prev, tag]
   npub, faults,
+  pks,           \* payload class of publication id (sequence)
   cfg,           \* [kind, filt, med]
   sess,          \* current session number
   pc,            \* subscriber thread: "idle", "g1", "g2", "g3", "done", "failed"
@@ -75,7 +79,7 @@ VARIABLES
   out,           \* frames written to the connection in this session
   step
 
-vars == <<top, win, wire, npub, faults, cfg, sess, pc, hub, hres, buf, sub, mlatest, cl, out, step>>
+vars == <<top, win, wire, npub, faults, pks, cfg, sess, pc, hub, hres, buf, sub, mlatest, cl, out, step>>
 
 Positioned == cfg.kind \in {"pos", "rec"}
 Recovering == cfg.kind = "rec" /\ cl.has          \* the SDK recovers whenever it knows a position
@@ -86,7 +90,7 @@ NoSub  == [st |-> "none", pos |-> 0, da |-> FALSE]
 NoHres == [pubs |-> <<>>, top |-> 0]
 
 Init ==
-  /\ top = 0 /\ win = <<>> /\ wire = {} /\ npub = 0 /\ faults = 0
+  /\ top = 0 /\ win = <<>> /\ wire = {} /\ npub = 0 /\ faults = 0 /\ pks = <<>>
   /\ cfg \in {[kind |-> k, filt |-> f, med |-> m] : k \in Kinds, f \in Filts, m \in Meds}
   /\ sess = 1 /\ pc = "idle" /\ hub = FALSE /\ hres = NoHres /\ buf = <<>>
   /\ sub = NoSub /\ mlatest = 0
@@ -98,9 +102,9 @@ Init ==
 (* broker side *)
 \* ud = the publication is published with the delta option: only then the broker looks up prevPub and only then
 \* the medium offers its latestPublication as local base; the medium REMEMBERS every publication it broadcasts
-Publish(tag, ud) ==
+Publish(tag, ud, pk) ==
   /\ npub < MaxPub
-  /\ npub' = npub + 1
+  /\ npub' = npub + 1 /\ pks' = Append(pks, pk)
   /\ IF cfg.kind = "nohist"
        THEN /\ UNCHANGED <<top, win>>
             /\ wire' = wire \cup {[id |-> npub + 1, off |-> 0, prev |-> 0, tag |-> tag, ud |-> ud]}
@@ -111,16 +115,19 @@ Publish(tag, ud) ==
             /\ wire' = wire \cup {[id |-> npub + 1, off |-> top + 1,
                                    prev |-> IF win = <<>> \/ ~ud THEN 0 ELSE win[Len(win)].id, tag |-> tag, ud |-> ud]}
   /\ UNCHANGED <<faults, cfg, sess, pc, hub, hres, buf, sub, mlatest, cl, out>>
-  /\ step' = [act |-> "Publish", tag |-> tag, id |-> npub + 1, ud |-> ud]
+  /\ step' = [act |-> "Publish", tag |-> tag, id |-> npub + 1, ud |-> ud, pk |-> pk]
 
 ClearHistory ==
   /\ AllowClear /\ win # <<>> /\ cfg.kind # "nohist"
   /\ win' = <<>>
-  /\ UNCHANGED <<top, wire, npub, faults, cfg, sess, pc, hub, hres, buf, sub, mlatest, cl, out>>
+  /\ UNCHANGED <<top, wire, npub, pks, faults, cfg, sess, pc, hub, hres, buf, sub, mlatest, cl, out>>
   /\ step' = [act |-> "ClearHistory"]
 
 (* a frame as the client sees it: hb = what the client held when it arrived *)
-Frame(off, id, prev, hb) == [off |-> off, id |-> id, delta |-> prev # 0, base |-> prev, hb |-> hb]
+\* a patch travels only when it is smaller than the payload: both payloads of the similar class
+\* (or the very same payload again: a duplicate delivery through the medium)
+Comp(a, b) == a # 0 /\ (a = b \/ (pks[a] = "sim" /\ pks[b] = "sim"))
+Frame(off, id, prev, hb) == [off |-> off, id |-> id, delta |-> Comp(prev, id), base |-> IF Comp(prev, id) THEN prev ELSE 0, hb |-> hb]
 
 ClientTakes(f) == [cl EXCEPT !.held = f.id, !.off = IF f.off # 0 /\ cfg.kind = "rec" THEN f.off ELSE @]
 
@@ -172,14 +179,14 @@ Deliver(d, keep) ==
         /\ faults' = faults + nf
   /\ wire' = IF keep THEN wire ELSE wire \ {d}
   /\ Receive(d)
-  /\ UNCHANGED <<top, win, npub, cfg, sess, pc, hres>>
+  /\ UNCHANGED <<top, win, npub, pks, cfg, sess, pc, hres>>
   /\ step' = [act |-> "Deliver", id |-> d.id, keep |-> keep]
 
 Drop(d) ==
   /\ d \in wire /\ faults < MaxFaults
   /\ faults' = faults + 1
   /\ wire' = wire \ {d}
-  /\ UNCHANGED <<top, win, npub, cfg, sess, pc, hub, hres, buf, sub, mlatest, cl, out>>
+  /\ UNCHANGED <<top, win, npub, pks, cfg, sess, pc, hub, hres, buf, sub, mlatest, cl, out>>
   /\ step' = [act |-> "Drop", id |-> d.id]
 
 ---------------------------------------------------------------------------
@@ -187,13 +194,13 @@ Drop(d) ==
 SubStart ==                                  \* reservation, StartBuffering, addSubscription (new medium) -> parked in Broker.Subscribe
   /\ pc = "idle"
   /\ pc' = "g1" /\ hub' = TRUE /\ mlatest' = 0
-  /\ UNCHANGED <<top, win, wire, npub, faults, cfg, sess, hres, buf, sub, cl, out>>
+  /\ UNCHANGED <<top, win, wire, npub, pks, faults, cfg, sess, hres, buf, sub, cl, out>>
   /\ step' = [act |-> "SubStart", recover |-> Recovering, since |-> IF Recovering THEN cl.off ELSE 0]
 
 SubToHistory ==
   /\ pc = "g1" /\ Positioned
   /\ pc' = "g2"
-  /\ UNCHANGED <<top, win, wire, npub, faults, cfg, sess, hub, hres, buf, sub, mlatest, cl, out>>
+  /\ UNCHANGED <<top, win, wire, npub, pks, faults, cfg, sess, hub, hres, buf, sub, mlatest, cl, out>>
   /\ step' = [act |-> "SubToHistory"]
 
 After(w, o) == SelectSeq(w, LAMBDA x : x.off > o)
@@ -202,7 +209,7 @@ SubHistRead ==
   /\ pc = "g2"
   /\ pc' = "g3"
   /\ hres' = [pubs |-> IF Recovering THEN After(win, cl.off) ELSE <<>>, top |-> top]
-  /\ UNCHANGED <<top, win, wire, npub, faults, cfg, sess, hub, buf, sub, mlatest, cl, out>>
+  /\ UNCHANGED <<top, win, wire, npub, pks, faults, cfg, sess, hub, buf, sub, mlatest, cl, out>>
   /\ step' = [act |-> "SubHistRead"]
 
 \* isStreamRecovered (the client's epoch is always the stream's: it learnt it from the server)
@@ -256,20 +263,20 @@ SubFinish ==
                              held |-> IF frames # <<>> THEN frames[Len(frames)].id ELSE cl.held]
                    /\ pc' = "done" /\ buf' = <<>>
                    /\ UNCHANGED hub
-  /\ UNCHANGED <<top, win, wire, npub, faults, cfg, sess, hres, mlatest>>
+  /\ UNCHANGED <<top, win, wire, npub, pks, faults, cfg, sess, hres, mlatest>>
   /\ step' = [act |-> "SubFinish"]
 
 \* the client unsubscribes (or, after a disconnect, comes back on a new connection) and will subscribe again
 EndSession ==
   /\ pc \in {"done", "failed"} /\ sess < MaxSess
   /\ sess' = sess + 1 /\ pc' = "idle" /\ hub' = FALSE /\ sub' = NoSub /\ buf' = <<>> /\ hres' = NoHres /\ out' = <<>>
-  /\ UNCHANGED <<top, win, wire, npub, faults, cfg, mlatest, cl>>
+  /\ UNCHANGED <<top, win, wire, npub, pks, faults, cfg, mlatest, cl>>
   /\ step' = [act |-> "EndSession"]
 
 PubTags == IF cfg.filt THEN {"keep", "drop"} ELSE {"keep"}
 
 Next ==
-  \/ \E t \in PubTags, ud \in DeltaOpts : Publish(t, ud)
+  \/ \E t \in PubTags, ud \in DeltaOpts, pk \in PayKinds : Publish(t, ud, pk)
   \/ ClearHistory
   \/ \E d \in wire : Drop(d)
   \/ \E d \in wire, k \in BOOLEAN : Deliver(d, k)
@@ -306,6 +313,12 @@ ScnWithheldTail == \E i \in 1..Len(out) : /\ out[i].t = "reply" /\ out[i].recove
 ScnMixedDeltaOption == cfg.med /\ \E i, j, k \in 1..Len(out) : /\ i < j /\ j < k
                                    /\ out[i].t = "pub" /\ out[j].t = "pub" /\ out[k].t = "pub"
                                    /\ out[i].ud /\ ~out[j].ud /\ out[k].ud /\ out[k].p.delta
+\*  - a recovered chain of three or more publications with a full fallback in the middle (an unrelated payload between
+\*    two similar ones): every later one is judged against the data of the previous RECOVERED publication
+ScnFullInChain == \E i \in 1..Len(out) : /\ out[i].t = "reply" /\ Len(out[i].pubs) >= 3
+                     /\ \E j \in 2..(Len(out[i].pubs) - 1) : /\ pks[out[i].pubs[j].id] = "unrel"
+                                                             /\ pks[out[i].pubs[j - 1].id] = "sim" /\ pks[out[i].pubs[j + 1].id] = "sim"
+NotScnFullInChain == ~ScnFullInChain
 NotScnWithheldTail == ~ScnWithheldTail
 NotScnMixedDeltaOption == ~ScnMixedDeltaOption
 
@@ -313,5 +326,5 @@ NotScnMixedDeltaOption == ~ScnMixedDeltaOption
 SomeLiveDelta == \E i \in 1..Len(out) : out[i].t = "pub" /\ out[i].p.delta
 NoLiveDelta   == ~SomeLiveDelta
 
-View == <<top, win, wire, npub, faults, cfg, sess, pc, hub, hres, buf, sub, mlatest, cl, out>>
+View == <<top, win, wire, npub, faults, pks, cfg, sess, pc, hub, hres, buf, sub, mlatest, cl, out>>
 =============================================================================
